@@ -153,6 +153,11 @@ class ScriptWorld(object):
                 exp = [(S[c], wt) for c, wt in w[1]]
                 if len(got) != len(exp) or any(a[0] is not b[0] or a[1] != b[1] for a, b in zip(got, exp)):
                     return ("softclauses", "soft clauses %r, live ones are %r" % (g.soft, w[1]))
+                # the objective the goal reports (what an optimizer maximises) is the weighted sum of the live
+                # soft clauses: compared under every assignment of the clauses' symbols
+                bad = self._objective_differs(g, w[1])
+                if bad:
+                    return ("objective", bad)
             else:
                 kind, t, signed = w
                 ok = {"max": g.is_maximization_goal() and not g.is_maxmin_goal() and not g.is_maxsmt_goal(),
@@ -169,6 +174,29 @@ class ScriptWorld(object):
                 if bool(g.signed) != bool(signed):
                     return ("goals", "goal %r signedness should be %r" % (g, signed))
         return None
+
+
+def _objective_differs(self, g, live):
+    from fractions import Fraction
+    from ..core.refsem import compile_term
+    try:
+        t = g.term()
+    except Exception as e:
+        return "goal.term() raised %r" % (e,)
+    if t is None:
+        return None if not live else "goal.term() is None although %d soft clauses are live" % len(live)
+    fn = compile_term(t, {})[1]
+    names = sorted(set(c for c, _ in live) | set(x.symbol_name() for x in t.get_free_variables()))
+    for vals in itertools.product((False, True), repeat=len(names)):
+        I = dict(zip(names, vals))
+        want = sum(Fraction(wt) for c, wt in live if I[c])
+        got = fn(I)
+        if Fraction(got) != want:
+            return "objective %s evaluates to %s under %r, the live soft clauses %r give %s" % (t, got, I, live, want)
+    return None
+
+
+ScriptWorld._objective_differs = _objective_differs
 
 
 def script_sig(seq, kind):
